@@ -17,6 +17,7 @@ class Context:
         self._loop_depth = 0
         self._in_matrix = False
         self._in_routine = False
+        self._outer_loop_stack = deque()
 
     def __contains__(self, name) -> bool:
         return name in self._locals or name in self._globals
@@ -33,6 +34,10 @@ class Context:
 
     def enter_routine(self) -> None:
         self._in_routine = True
+        # Loops around the definition are not loops of the routine: a break in
+        # the routine's body has nothing to do with them.
+        self._outer_loop_stack = self._loop_stack
+        self._loop_stack = deque()
 
     def in_routine(self) -> bool:
         return self._in_routine
@@ -40,6 +45,7 @@ class Context:
     def exit_routine(self) -> None:
         self._in_routine = False
         self._locals.clear()
+        self._loop_stack = self._outer_loop_stack
 
     def enter_matrix(self) -> None:
         self._in_matrix = True
